@@ -13,7 +13,21 @@ RW = ['get', 'getam', 'put', 'putam']
 PL = ['cbc', 'ncbc', 'dcbc', 'someaux', 'amaux', 'naux', 'daux', 'ssts', 'asts', 'nsts', 'dsts']
 
 
+def chunk_sources(rnd):
+    """the library's own chunk-list source: empty fragments in front, in the middle (also two in a row) and at the end"""
+    sc = []
+    shapes = [[(4, 4, 0)], [(4, 4, 4), (3, 3, 0)], [(4, 2, 2), (5, 0, 0), (6, 6, 1)], [(4, 4, 0), (3, 1, 1), (2, 0, 0), (7, 7, 0)],
+              [(2, 0, 0), (2, 2, 2), (3, 3, 0), (1, 1, 1)], [(5, 5, 5), (5, 5, 5)], [(4, 4, 1), (6, 6, 6), (6, 3, 3), (6, 2, 2), (9, 9, 2)]]
+    for sh in shapes:
+        total = sum(u - o for (s, u, o) in sh)
+        for act in range(0, len(sh)):
+            for n in sorted(set([1, 2, max(1, total // 2), max(1, total), total + 1])):
+                sc.append('chsrc %d %s %d %d' % (len(sh), ' '.join('%d %d %d' % x for x in sh), act, n))
+    return sc
+
+
 def e2(rnd, count, maxn):
+    yield chunk_sources(rnd)
     for _ in range(count):
         sc = []
         for _ in range(10):
